@@ -29,6 +29,7 @@ def check(ctx):
     dataset.check_ds_left(ctx)
     dataset.check_ds_pure(ctx)
     dataset.check_ds_copy(ctx)
+    dataset.check_op_direct(ctx)
 
 
 def variants(program):
